@@ -35,6 +35,7 @@ ITEMS = [
  ('C17_buffer_source', 'buffer_get_chunk_spec', "the library's own drivers (endpoints/buffer.c), a byte buffer as source: reading N octets delivers exactly the next N unread octets and advances the read position by N; with fewer than N unread it delivers them all and reports end of data"),
  ('C17_buffer_source_invalid', 'buffer_get_chunk_invalid', ''),
  ('C17_chunk_list_source', 'chunks_get_chunk_spec', 'a chunk list as source: the unread octets of the chunks from the active one on, in order, across chunk borders and exhausted chunks'),
+ ('C17_buffer_to_buffer', 'buf_sts_n_spec', 'counted move from a buffer source into a buffer sink (per octet, no extension): with enough unread octets and enough room exactly the next n octets are appended, in order'),
  ('C17_buffer_sink', 'buffer_put_chunk_spec', 'a byte buffer as sink: N octets are appended exactly, or the call is refused with ENOMEM and the buffer is unchanged'),
 ]
 EXTRA = '''
